@@ -730,7 +730,7 @@ Print Assumptions C05_can_be_made_atomic_sound.
 (* findAndMakeLoopsAtomic + processNode: the same first result under every continuation the parents allow *)
 Theorem C05_auto_atomic_loops_sound_partial :
   forall cat_in isw isew sid e sets, env_ok cat_in isw isew sid e sets ->
-  forall strict, Z.testbit strict 0 = true -> Z.testbit strict 1 = true -> Z.testbit strict 2 = true -> Z.testbit strict 3 = true ->
+  forall strict, Z.testbit strict 0 = true -> Z.testbit strict 1 = true -> Z.testbit strict 2 = true ->
   forall f x c x', fo_fa cat_in isw isew f strict x c = Ok x' -> node_ok sets x -> ctx_ok sets c ->
     node_ok sets x' /\ forall K, CK sid e c K -> HK e K (tr sid x) (tr sid x').
 Proof. exact fa_sound. Qed.
